@@ -18,12 +18,12 @@ RULE = ('every shipped Transformation with a date reference epoch (all enumerate
         'parameters (2 um); equals conform7 at the reference epoch; set then negated set at the same epoch closes within the C06 '
         'bound; ATRF2014<->GDA2020 wrappers are mutual inverses within that bound and bit-exact identity at 2020-01-01; with a '
         'covariance and uncertainties the result equals J Q J^T with sigma(t)^2 = sigma^2 + (sigma_rate * dt)^2.  '
-        '3 % of the judged calls are preceded by calls the property does not speak about (strings, None, numbers or malformed covariance where a parameter set, a date or a 3x3 matrix is required; a Transformation plus a number): not judged, exceptions swallowed.  distinct = set x epoch class x octant x radius decade')
+        '3 % of the judged calls are preceded by calls the property does not speak about (strings, None, numbers or malformed covariance where a parameter set, a date or a 3x3 matrix is required; a Transformation plus a number): not judged, exceptions swallowed.  expectations for shipped sets and for the plate-motion wrappers are built from the parameters as imported (a constant rewritten by a call shows as a wrong result); a fifth of the wrapper cases are preceded by ONE call at exactly the reference epoch.  distinct = set x epoch class x octant x radius decade')
 ASSUMPTIONS = ['helmert_exact (self-validated each shard)', 'Julian year = 365.25 days counted from datetime.date ordinals',
                'uncertainty of a propagated parameter: sqrt(sd^2 + (sd_rate * dt)^2), as documented in Transformation.__add__']
 N = {'quick': 1500, 'thorough': 25000}
 SHARDS = {'quick': 16, 'thorough': 32}
-REQUIRED_COUNTERS = ['unjudged_calls_before_a_judged_one', 'wrapper_calls_with_covariance', 'same_label_sequences', 'shipped_sets_calls', 'random_sets_calls', 'reference_epoch_cases', 'before_reference_epoch', 'leap_day_cases',
+REQUIRED_COUNTERS = ['single_calls_at_reference_epoch', 'unjudged_calls_before_a_judged_one', 'wrapper_calls_with_covariance', 'same_label_sequences', 'shipped_sets_calls', 'random_sets_calls', 'reference_epoch_cases', 'before_reference_epoch', 'leap_day_cases',
                      'wrapper_roundtrips', 'wrapper_identity', 'negation_roundtrips', 'vcv_judged']
 D0 = datetime.date(1980, 1, 1).toordinal()
 D1 = datetime.date(2060, 12, 31).toordinal()
@@ -150,7 +150,7 @@ def judge(ns, ctx, case):
     rad = math.sqrt(x * x + yy * yy + z * z)
     ctx.bucket(case['set'] if shipped else 'random', cls, 'before' if ep < t.ref_epoch else 'after',
                ''.join('+' if c >= 0 else '-' for c in (x, yy, z)), int(math.log10(rad)) if rad >= 1 else 0)
-    p = hx.params_at(t, ep)
+    p = hx.params_at(c06.as_imported(ns, case['set']) if shipped else t, ep)
     # uncertainties as published: for shipped sets the snapshot taken right after import (an earlier call must not
     # have changed them), for generated sets the values they were built with
     if shipped:
@@ -214,6 +214,19 @@ def judge_wrappers(ns, ctx, case):
     kw = {} if V is None else {'vcv': V}
     if V is not None:
         ctx.count('wrapper_calls_with_covariance')
+    single = case.get('single_call_at_reference_epoch')
+    if single:
+        ref = datetime.date(2020, 1, 1)
+        ctx.count('single_calls_at_reference_epoch')
+        try:
+            if single.startswith('conform14:'):
+                one = T.conform14(x, yy, z, ref, getattr(ns.constants, single.split(':')[1]))
+            else:
+                one = getattr(T, single)(x, yy, z, ref)
+            if tuple(one[:3]) != (x, yy, z):
+                ctx.violation('wrappers:not-identity-at-2020', case, {'call': single, 'result': list(one[:3])})
+        except Exception as e:
+            ctx.violation('wrappers:exception', case, {'exception': repr(e), 'call': single})
     try:
         f = T.transform_atrf2014_to_gda2020(x, yy, z, ep, **kw)
         b = T.transform_gda2020_to_atrf2014(f[0], f[1], f[2], ep, **kw)
@@ -224,7 +237,7 @@ def judge_wrappers(ns, ctx, case):
         return
     ctx.count('wrapper_roundtrips')
     t = ns.constants.atrf2014_to_gda2020
-    p = hx.params_at(t, ep)
+    p = hx.params_at(c06.as_imported(ns, 'atrf2014_to_gda2020'), ep)
     exact_res = hx.apply(*hx.apply_exact(x, yy, z, p), hx.negated(p))
     bound = math.dist(exact_res, (x, yy, z)) + 5e-6
     for name, res in (('atrf->gda->atrf', b), ('gda->atrf->gda', b2)):
@@ -246,6 +259,7 @@ def judge_wrappers(ns, ctx, case):
 
 def run_shard(spec, ctx):
     ns = core.load_repo()
+    c06.as_imported(ns, 'atrf2014_to_gda2020')
     try:
         ctx.info['oracle_selfcheck'] = {k: float('%.3g' % v) for k, v in hx.self_check().items()}
     except AssertionError as e:
@@ -313,6 +327,11 @@ def run_shard(spec, ctx):
                 [rnd.uniform(-5e6, -3e6), rnd.uniform(2e6, 5e6), rnd.uniform(-4.5e6, -1e6)]}
         if i % 3 == 0:
             case['vcv'] = c06.rand_vcv(rnd, rnd.choice(['spd', 'zero', 'rank1', 'diag'])).tolist()
+        if i % 5 == 1:
+            # ONE call of one wrapper (or of conform14 with one of the two constants) at exactly the reference epoch, then the
+            # judged pair at another epoch: a call at the reference epoch is where "nothing to propagate" short cuts live
+            case['single_call_at_reference_epoch'] = rnd.choice(['transform_gda2020_to_atrf2014', 'transform_atrf2014_to_gda2020',
+                                                                 'conform14:atrf2014_to_gda2020'])
         judge_wrappers(ns, ctx, case)
 
 
